@@ -209,7 +209,7 @@ func runGroup[P libPoint[P, S], S curve.Byteser, R any](g *group[P, S, R], sweep
 }
 
 func TestCheck(t *testing.T) {
-	engine.Rule("per curve type: every ordered pair (Choose) and triple (inner loop) of the point alphabet for Add/Op/Sub/TrySub/Equal and both bracketings of P+Q+R, unary Double/Neg/OpInv/Clone/IsZero/IsTorsionFree on every element; every (point, scalar) for the scalar alphabet, the 64x16 window-digit sweep d*16^w and the dense range 0..4095; every MultiScalarMul tuple of each length 0..L over S'={0,1,2,q-1,2^128+1} x P'={O,G,-G,H} and 9 structured patterns at each strategy-boundary length; every ordered pair of the field boundary alphabet for Add/Sub/Mul/TryDiv/Equal with unary Neg/Square/Double/TryInv/Sqrt, wide and BE-reduce inputs; pairing laws over P x Q x {0,1,2,q-1}^2 and every MultiPair tuple of length 0..3. A case is distinct by its (curve, operand indices[, scalar]) key; non-trivial = the library operation was executed and its affine result compared with the math/big model.")
+	engine.Rule("per curve type: every ordered pair (Choose) and triple (inner loop) of the point alphabet for Add/Op/Sub/TrySub/Equal and both bracketings of P+Q+R, unary Double/Neg/OpInv/Clone/IsZero/IsTorsionFree on every element; every (point, scalar) for the scalar alphabet, the 64x16 window-digit sweep d*16^w and the dense range 0..4095; every MultiScalarMul tuple of each length 0..L over S'={0,1,2,q-1,2^128+1} x P'={O,G,-G,H} and 9 structured patterns at each strategy-boundary length; every ordered pair of the field boundary alphabet for Add/Sub/Mul/TryDiv/Equal with unary Neg/Square/Double/TryInv/Sqrt, wide and BE-reduce inputs; pairing laws over P x Q x {0,1,2,q-1}^2 and every MultiPair tuple of length 0..3; the exported low-level engine (bls12381/impl.Engine) over every tuple of 1..3 pairs from {O,G,H} x {O,G,H} (identity operands included), first pair through each of AddPair / AddPairInvG1 / AddPairInvG2: Result == product of the pairings of the non-identity pairs, Check consistent. A case is distinct by its (curve, operand indices[, scalar]) key; non-trivial = the library operation was executed and its affine result compared with the math/big model.")
 	engine.Assume(
 		"math/big and the reference models in /verif/mc/ref/curve (constants typed in from SEC 2, FIPS 186-4, RFC 7748/8032, pasta and BLS12-381 specs; validated by go test ./ref/curve/) are correct",
 		"library results are read through the public affine accessors (AffineX/AffineY/IsZero, field element Bytes); inputs are built through Field.FromBytes and Curve.FromAffine or by library arithmetic and verified against the intended value before use",
